@@ -367,8 +367,12 @@ fn reduce_chain_links(
     link_files.iter().try_for_each(|(k, v)| -> Result<()> {
         res.insert(
             k.clone(),
-            v.values()
-                .last()
+            // the links of a step may legitimately differ (threshold 1 and
+            // several signers): always pick the one of the smallest key id,
+            // not whichever the hash map happens to yield last
+            v.iter()
+                .min_by(|a, b| a.0.cmp(b.0))
+                .map(|(_, link)| link)
                 .ok_or_else(|| {
                     Error::VerificationFailure(format!(
                         "step {} does not have enough LinkMetadata.",
